@@ -29,7 +29,7 @@ DEPS = os.path.join(VERIF, '.deps')
 SHRINK_BUDGET = {'quick': 25, 'thorough': 180}   # seconds of shrinking after the first failure of a shard
 TASK_WALL_LIMIT = 3 * 3600   # a whole worker task (thousands of cases); far above any honest run
 SETTLED_GRACE = 45
-CASE_CPU_LIMIT = 600  # CPU seconds for ONE case that normally takes milliseconds (hit => exit 2, inconclusive)
+CASE_CPU_LIMIT = int(os.environ.get('VERIF_CASE_CPU_LIMIT', '600'))  # CPU seconds for ONE case that normally takes milliseconds (hit: see Ctx.hang_entry)
 
 
 def bootstrap():
@@ -162,9 +162,8 @@ class Ctx:
         except Violation as v:
             self.add_violation(v)
             return False
-        except Hang:
-            self.violations.append({'site': 'nontermination', 'case': self.current_case(),
-                                    'message': f'no result after {CASE_CPU_LIMIT} CPU seconds'})
+        except Hang as h:
+            self.violations.append(self.hang_entry(h))
             return False
         except Exception as e:  # noqa: BLE001
             if from_library(e):
@@ -221,11 +220,21 @@ class Ctx:
         except Violation:
             self.add_violation(last['v'])
             return False
-        except Hang:
-            self.violations.append({'site': 'nontermination', 'case': self.current_case(),
-                                    'message': f'no result after {CASE_CPU_LIMIT} CPU seconds'})
+        except Hang as h:
+            self.violations.append(self.hang_entry(h))
             return False
         return True
+
+    def hang_entry(self, exc):
+        """A CPU-budget hit.  Site 'nontermination@<where>' (a violation) only if the budget was burnt inside the
+        library on a small case - nothing the library does on a table with <= 20 properties takes minutes; anything
+        else (big intents make minimal() / attributes() legitimately exponential, or the harness itself was busy) is
+        the inconclusive site 'nontermination'."""
+        case = self.current_case()
+        site = 'nontermination'
+        if from_library(exc) and small_case(case):
+            site = 'nontermination@' + innermost(exc)
+        return {'site': site, 'case': case, 'message': f'no result after {CASE_CPU_LIMIT} CPU seconds'}
 
     def current_case(self):
         cur = self._current
@@ -243,6 +252,24 @@ class Ctx:
                 'hyp_examples': self.hyp_examples,
                 'extra': dict(self.extra),
                 'error': None}
+
+
+def small_case(case):
+    try:
+        if len(json.dumps(case, default=str)) > 4000:
+            return False
+    except (TypeError, ValueError):
+        return False
+    stack = [case]
+    while stack:
+        x = stack.pop()
+        if isinstance(x, dict):
+            if isinstance(x.get('p'), (list, tuple)) and len(x['p']) > 20:
+                return False
+            stack.extend(x.values())
+        elif isinstance(x, (list, tuple)):
+            stack.extend(v for v in x if isinstance(v, (dict, list, tuple)))
+    return True
 
 
 def innermost(exc):
